@@ -92,6 +92,7 @@ type Sim struct {
 	roleCount map[string]int
 
 	step      atomic.Uint64
+	SpinParks atomic.Int64
 	seq       atomic.Uint64
 	running   *Task // the task released by the last decision (nil for env actions)
 	providers []Provider
@@ -154,6 +155,10 @@ func New(tape *Tape) *Sim {
 
 // Step returns the number of decisions taken so far.
 func (s *Sim) Step() uint64 { return s.step.Load() }
+
+// SpinParksCount is the number of times a goroutine found a mutex taken and
+// parked at lock.spin (reach metric; includes the silent, transient ones).
+func (s *Sim) SpinParksCount() int64 { return s.SpinParks.Load() }
 
 // Seq returns a fresh global event sequence number (total order of recorded
 // history events).
@@ -253,7 +258,7 @@ func (s *Sim) Yield(point, arg string) {
 		s.Observer(point, arg)
 	}
 	if point == "lock.spin" {
-		s.Probe("a mutex was not free: the goroutine parked until it was (lock.spin " + arg + ")")
+		s.SpinParks.Add(1) // (not a Probe: its map must not be touched from here in the race build)
 	}
 	if !s.IsEnabled(point) {
 		return
